@@ -29,6 +29,19 @@ from .utils import (
 Numerical = Union[Iterable, float, int]
 
 
+def concatenate_nonempty(arrays) -> np.ndarray:
+    """Concatenate the arrays of a group, ignoring entries without trials.
+
+    An entry with zero trials holds a 1-dimensional empty array, which cannot
+    be concatenated with the 2-dimensional effective errors of other entries.
+    """
+    values = list(arrays.values)
+    nonempty = [value for value in values if len(value) > 0]
+    if len(nonempty) == 0:
+        return values[0]
+    return np.concatenate(nonempty)
+
+
 class Analysis:
     """Analysis on large collections of results files.
 
@@ -460,7 +473,7 @@ class Analysis:
         # Columns for which grouped entries are to be concantenated np arrays.
         concat_columns = grouped_df[[
             'effective_error', 'success', 'codespace'
-        ]].aggregate(lambda x: np.concatenate(x.values))
+        ]].aggregate(concatenate_nonempty)
 
         # Columns to be grouped and turned into lists.
         list_columns = grouped_df[['results_file']].aggregate(list)
